@@ -504,6 +504,9 @@ static CMDResult CMD_EntryAdr(Boolean Negate, char const* Arg) {
         EntryAdrPresent = False;
         return CMDOK;
     } else {
+        if (*Arg == '\0') {
+            return CMDErr;
+        }
         EntryAdr = ConstLongInt(Arg, &err, 10);
         if (err) {
             EntryAdrPresent = True;
@@ -516,6 +519,9 @@ static CMDResult CMD_FillVal(Boolean Negate, char const* Arg) {
     Boolean err;
     UNUSED(Negate);
 
+    if (*Arg == '\0') {
+        return CMDErr;
+    }
     FillVal = ConstLongInt(Arg, &err, 10);
     return err ? CMDArg : CMDErr;
 }
